@@ -1167,6 +1167,30 @@ theorem trans_C20_eventer_v1 (ls : List (Int × Int)) (newId fn id val : Int) (h
   · simp only [v1_ev_RemoveListener, List.mem_filter]; exact fun kv h => by simpa using h.2
   · simp only [v1_ev_RemoveListener, List.mem_filter]; exact fun kv h hne => ⟨h, by simpa using hne⟩
 
+/-! ### Batcher v2: the configuration setters C16 names -/
+
+/-- after `Start` (any phase but uninitialised: started, paused, stopped) every one of the seven setters panics and
+changes nothing - it never silently takes effect -/
+theorem trans_C16_setters_panic_after_start_v2 (r : T_v2_batcher_set) (h : r.phase ≠ 0) (rl : Bool) (v : Int) :
+    v2_WithRateLimiter r rl = (r, false, true) ∧ v2_WithFlushInterval r v = (r, false, true) ∧
+    v2_WithCapacityInterval r v = (r, false, true) ∧ v2_WithAuditInterval r v = (r, false, true) ∧
+    v2_WithMaxOperationTime r v = (r, false, true) ∧ v2_WithPauseTime r v = (r, false, true) ∧
+    v2_WithErrorOnFullBuffer r = (r, false, true) := by
+  simp [v2_WithRateLimiter, v2_WithFlushInterval, v2_WithCapacityInterval, v2_WithAuditInterval,
+    v2_WithMaxOperationTime, v2_WithPauseTime, v2_WithErrorOnFullBuffer, h]
+
+/-- before `Start` they set their value and nothing else, without a panic -/
+theorem trans_C16_setters_before_start_v2 (r : T_v2_batcher_set) (h : r.phase = 0) (rl : Bool) (v : Int) :
+    v2_WithRateLimiter r rl = ({ r with ratelimiter := rl }, true, false) ∧
+    v2_WithFlushInterval r v = ({ r with flushInterval := v }, true, false) ∧
+    v2_WithCapacityInterval r v = ({ r with capacityInterval := v }, true, false) ∧
+    v2_WithAuditInterval r v = ({ r with auditInterval := v }, true, false) ∧
+    v2_WithMaxOperationTime r v = ({ r with maxOperationTime := v }, true, false) ∧
+    v2_WithPauseTime r v = ({ r with pauseTime := v }, true, false) ∧
+    v2_WithErrorOnFullBuffer r = ({ r with errorOnFullBuffer := true }, true, false) := by
+  simp [v2_WithRateLimiter, v2_WithFlushInterval, v2_WithCapacityInterval, v2_WithAuditInterval,
+    v2_WithMaxOperationTime, v2_WithPauseTime, v2_WithErrorOnFullBuffer, h]
+
 /-! ### non-vacuity: the translated functions on concrete values (also a readable trace of what they compute) -/
 
 example : v2_incTarget ⟨7⟩ 5 = ⟨12⟩ ∧ v2_incTarget ⟨7⟩ (-5) = ⟨2⟩ ∧ v2_incTarget ⟨7⟩ (-9) = ⟨0⟩ ∧ v2_incTarget ⟨7⟩ 0 = ⟨7⟩ := by decide
